@@ -3,10 +3,14 @@
 (* it describes, and every IndelMap operation is the corresponding operation *)
 (* on that string.                                                           *)
 (*                                                                           *)
-(* Abstract state: g, a gapped sequence abstracted to Seq({0,1})             *)
-(* (0 = gap column, 1 = residue).  Every string of length 0..MaxLen is an    *)
-(* initial state and every operation maps strings to strings, so the         *)
-(* reachable set is closed (no depth bound).                                 *)
+(* Abstract state: g, the gapped sequence (abstracted to Seq({0,1}),          *)
+(* 0 = gap column, 1 = residue) described by the map that calls are made on, *)
+(* and out, the map returned by the last call.  Every string of length       *)
+(* 0..MaxLen is an initial receiver, every operation maps strings to strings *)
+(* and a returned map can become the receiver (Adopt), so the reachable set  *)
+(* is closed (no depth bound) and contains every history of calls on one     *)
+(* object, fresh or derived.  ReadOnlyOpsPreserveReceiver: no call changes   *)
+(* the map it is made on.                                                    *)
 (*                                                                           *)
 (* Each action is one public call of cogent3.core.location.IndelMap.  The    *)
 (* oracle is always written ON THE STRING:                                   *)
@@ -33,8 +37,9 @@ CONSTANTS MaxLen,     \* all strings of length 0..MaxLen are states
           SegsLen,    \* ... for strings up to this length (longer strings: at most 2 segments)
           EmptySegsUpTo \* strings up to this length also get empty segments (start = end)
 
-VARIABLES g
-vars == <<g>>
+VARIABLES g,      \* the gapped string of the receiver (the map calls are made on)
+          out     \* the map returned by the last call: [has, s]
+vars == <<g, out>>
 
 Gap == 0
 Res == 1
@@ -151,49 +156,75 @@ CoordLists(n) ==
 CL == [n \in 0..MaxLen |-> CoordLists(n)]       \* evaluated once
 
 ---------------------------------------------------------------------------
-(* Actions: one public call each                                            *)
+(* Actions.  There are two objects in a state: g is the gapped string of the *)
+(* map the calls are made ON (the receiver), out is the map the last call    *)
+(* RETURNED (if any).  Every public call is a query: it computes a new       *)
+(* object and leaves its receiver exactly as it was (Call: g' = g).  A       *)
+(* history continues either on the same receiver (Drop: the returned map is  *)
+(* discarded) or on the returned, derived map (Adopt: it becomes the         *)
+(* receiver of the following calls).  So a behaviour is a history of calls   *)
+(* on ONE object, possibly a derived one, and the conformance replay runs    *)
+(* such histories on one real object, re-projecting the receiver after every *)
+(* step (harness/check_C08.py, history phase).                               *)
 
-Log(act, args, ret) == Emit([from |-> g, act |-> act, args |-> args, to |-> g', ret |-> ret])
+NoOut == [has |-> FALSE, s |-> <<>>]
+Out(s) == [has |-> TRUE, s |-> s]
 
-DescribeT == g' = g
-DescribeA == DescribeT /\ Log("Describe", <<>>, Describe(g))
+Log(act, args, res, ret) == Emit([from |-> g, act |-> act, args |-> args, to |-> res, ret |-> ret])
 
-SliceT(a, b) == g' = SliceS(g, a, b)
-Slice(a, b) == SliceT(a, b) /\ Log("Slice", <<a, b>>, 0)
+(* a call returning a map described by string res *)
+CallT(res) == /\ ~out.has
+              /\ g' = g                  \* the receiver is not changed by the call
+              /\ out' = Out(res)
+(* a call returning a plain value *)
+AskT == /\ ~out.has
+        /\ g' = g
+        /\ out' = out
 
-IndexT(i) == g' = IndexS(g, i)
-Index(i) == IndexT(i) /\ Log("Index", <<i>>, 0)
+DescribeT == AskT
+DescribeA == DescribeT /\ Log("Describe", <<>>, g, Describe(g))
 
-ConcatT(h) == Len(g) + Len(h) <= MaxLen /\ g' = ConcatS(g, h)
-Concat(h) == ConcatT(h) /\ Log("Concat", <<h>>, 0)
+SliceT(a, b) == CallT(SliceS(g, a, b))
+Slice(a, b) == SliceT(a, b) /\ Log("Slice", <<a, b>>, SliceS(g, a, b), 0)
 
-ScaleT(k) == k * Len(g) <= MaxLen /\ g' = ScaleS(g, k)
-Scale(k) == ScaleT(k) /\ Log("Scale", <<k>>, 0)
+IndexT(i) == CallT(IndexS(g, i))
+Index(i) == IndexT(i) /\ Log("Index", <<i>>, IndexS(g, i), 0)
 
-ReversedT == g' = RevS(g)
-Reversed == ReversedT /\ Log("Reversed", <<>>, 0)
+ConcatT(h) == Len(g) + Len(h) <= MaxLen /\ CallT(ConcatS(g, h))
+Concat(h) == ConcatT(h) /\ Log("Concat", <<h>>, ConcatS(g, h), 0)
+
+ScaleT(k) == k * Len(g) <= MaxLen /\ CallT(ScaleS(g, k))
+Scale(k) == ScaleT(k) /\ Log("Scale", <<k>>, ScaleS(g, k), 0)
+
+ReversedT == CallT(RevS(g))
+Reversed == ReversedT /\ Log("Reversed", <<>>, RevS(g), 0)
 
 MergeT(h) == /\ Len(g) <= MaxBin
              /\ PLen(h) = PLen(g)
              /\ Len(g) + Len(h) - PLen(g) <= MaxLen
-             /\ g' = MergeS(g, h)
-Merge(h) == MergeT(h) /\ Log("Merge", <<h>>, 0)
+             /\ CallT(MergeS(g, h))
+Merge(h) == MergeT(h) /\ Log("Merge", <<h>>, MergeS(g, h), 0)
 
-MinusT(h) == Len(g) <= MaxBin /\ g' = MinusS(g, h)
-Minus(h) == MinusT(h) /\ Log("Minus", <<h, SharedS(g, h)>>, 0)
+MinusT(h) == Len(g) <= MaxBin /\ CallT(MinusS(g, h))
+Minus(h) == MinusT(h) /\ Log("Minus", <<h, SharedS(g, h)>>, MinusS(g, h), 0)
 
-SharedT(h) == Len(g) <= MaxBin /\ g' = g
-Shared(h) == SharedT(h) /\ Log("Shared", <<h>>, SharedS(g, h))
+SharedT(h) == Len(g) <= MaxBin /\ AskT
+Shared(h) == SharedT(h) /\ Log("Shared", <<h>>, g, SharedS(g, h))
 
-JoinedT(cs) == g' = JoinS(g, cs)
-Joined(cs) == JoinedT(cs) /\ Log("Joined", <<cs>>, 0)
+JoinedT(cs) == CallT(JoinS(g, cs))
+Joined(cs) == JoinedT(cs) /\ Log("Joined", <<cs>>, JoinS(g, cs), 0)
 
-SeqSegsT(cs) == g' = g
-SeqSegs(cs) == SeqSegsT(cs) /\ Log("SeqSegs", <<cs>>, SeqSegsS(g, cs))
+SeqSegsT(cs) == AskT
+SeqSegs(cs) == SeqSegsT(cs) /\ Log("SeqSegs", <<cs>>, g, SeqSegsS(g, cs))
 
-Init == g \in Str(MaxLen)
+(* the history goes on with the returned (derived) map as receiver *)
+Adopt == out.has /\ g' = out.s /\ out' = NoOut
+(* the returned map is discarded, the history goes on with the same receiver *)
+Drop  == out.has /\ g' = g /\ out' = NoOut
 
-Next == \/ DescribeA
+Init == g \in Str(MaxLen) /\ out = NoOut
+
+Call == \/ DescribeA
         \/ \E a, b \in (0 - Len(g))..Len(g) : Slice(a, b)
         \/ \E i \in (0 - Len(g))..(Len(g) - 1) : Index(i)
         \/ \E h \in Str(MaxLen) : Concat(h)
@@ -203,20 +234,32 @@ Next == \/ DescribeA
         \/ \E h \in StrN(Len(g)) : Minus(h) \/ Shared(h)
         \/ \E cs \in CL[Len(g)] : Joined(cs) \/ SeqSegs(cs)
 
+Next == \/ (~out.has /\ Call)
+        \/ Adopt
+        \/ Drop
+
 Spec == Init /\ [][Next]_vars
+
+(* No call changes the map it is made on, whatever was done to that map      *)
+(* before: only Adopt (an explicit change of which object is the receiver)   *)
+(* changes g.                                                                *)
+ReadOnlyOpsPreserveReceiver == [][~out.has => g' = g]_vars
+DropPreservesReceiver == [][(out.has /\ g' # g) => (g' = out.s /\ ~out'.has)]_vars
 
 ---------------------------------------------------------------------------
 (* Design-level properties of the model itself, checked by TLC              *)
 
-TypeOK == g \in Str(MaxLen)
+TypeOK == /\ g \in Str(MaxLen)
+          /\ out.has \in BOOLEAN
+          /\ out.s \in Str(MaxLen)
 
 (* the representation determines the string (so comparing representations is complete) *)
-CanonRoundTrip == Decode(Canon(g)) = g
+CanonRoundTrip == ~out.has => Decode(Canon(g)) = g
 
 StrictlyIncreasing(f) == \A k \in 1..(Len(f) - 1) : f[k] < f[k + 1]
 
 (* no coordinate outside the parent; gap positions distinct and ordered *)
-InParent ==
+InParent == ~out.has =>
     LET c == Canon(g)
     IN /\ \A k \in 1..Len(c.gap_pos) : c.gap_pos[k] \in 0..c.plen
        /\ StrictlyIncreasing(c.gap_pos)
@@ -225,15 +268,15 @@ InParent ==
        /\ Len(g) = c.plen + (IF Len(c.cum) = 0 THEN 0 ELSE c.cum[Len(c.cum)])
 
 (* a string is the concatenation of its two parts at any cut *)
-SliceConcatLaw ==
+SliceConcatLaw == ~out.has =>
     \A a \in 0..Len(g) : ConcatS(SliceS(g, 0, a), SliceS(g, a, Len(g))) = g
 
-ReverseLaw ==
+ReverseLaw == ~out.has =>
     /\ RevS(RevS(g)) = g
     /\ \A i \in 0..Len(g) : SeqIndexS(RevS(g), i) = PLen(g) - SeqIndexS(g, Len(g) - i)
 
 (* index conversions are inverse on residues and monotone *)
-IndexLaw ==
+IndexLaw == ~out.has =>
     /\ \A p \in 0..(PLen(g) - 1) :
           /\ SeqIndexS(g, AlignIndexS(g, p)) = p
           /\ g[AlignIndexS(g, p) + 1] = Res
@@ -245,7 +288,7 @@ IndexLaw ==
 AllRes(n) == [i \in 1..n |-> Res]
 
 MergeLaw ==
-    Len(g) <= MaxBin =>
+    (~out.has /\ Len(g) <= MaxBin) =>
         /\ MergeS(g, AllRes(PLen(g))) = g
         /\ \A h \in Str(MaxBin) :
               PLen(h) = PLen(g) =>
@@ -254,7 +297,7 @@ MergeLaw ==
                  /\ Len(MergeS(g, h)) = Len(g) + Len(h) - PLen(g)
 
 MinusLaw ==
-    Len(g) <= MaxBin =>
+    (~out.has /\ Len(g) <= MaxBin) =>
         \A h \in StrN(Len(g)) :
             /\ PLen(MinusS(g, h)) = PLen(g)
             /\ Len(MinusS(g, h)) = Len(MinusS(h, g))
@@ -262,6 +305,6 @@ MinusLaw ==
             /\ SharedS(MinusS(g, h), MinusS(h, g)) = <<>>
             /\ Len(MinusS(g, h)) = PLen(BothGap(g, h))
 
-JoinLaw ==
+JoinLaw == ~out.has =>
     \A a, b \in 0..Len(g) : a < b => JoinS(g, <<<<a, b>>>>) = SliceS(g, a, b)
 =============================================================================
